@@ -81,13 +81,22 @@ type vReqGen struct {
 	emitted int
 }
 
+// vStuckGenerator: the request generator has handed out its pattern and then sits in a read that nothing
+// ends but its peer (targets piped in, the writer keeps the pipe open): it does not look at the context
+// and closes its channel only an hour of virtual time later. A cancelled scan must not wait for it.
+var vStuckGenerator bool
+
 func (g *vReqGen) GenerateRequests(ctx context.Context, r *scan.Range) (<-chan *scan.Request, error) {
 	if g.genErr != nil {
 		return nil, g.genErr
 	}
 	out := make(chan *scan.Request)
+	stuck := vStuckGenerator
 	go func() {
 		defer close(out)
+		if stuck {
+			defer vs.Sleep(time.Hour)
+		}
 		for i, p := range g.pattern {
 			q := &scan.Request{SrcIP: []byte{10, 0, 0, 5}, DstIP: []byte{10, 0, 0, byte(100 + i)}, SrcMAC: []byte{2, 0, 0, 0, 0, 1}, DstMAC: []byte{2, 0, 0, 0, 0, 2}, DstPort: uint16(i + 1)}
 			if p == 1 {
